@@ -24,7 +24,11 @@ class Bus:
 
     def transmit(self, t, width, value, origin="own", want_answer=True):
         idx = len(self.wire)
-        ans = self.answer(width, value, idx) if want_answer else None
+        # the units on the bus see every frame (the first transmission of a send-twice command too); want_answer=False
+        # only means the gateway does not listen for a backward frame after this transmission
+        ans = self.answer(width, value, idx)
+        if not want_answer:
+            ans = None
         self.wire.append({"t": t, "width": width, "value": value, "answer": ans, "origin": origin})
         return ans
 
